@@ -27,6 +27,14 @@ def run(ctx):
     for n, (d, f, l) in enumerate(semlib.cover_product(rng, [dbs, sets["fromssame6"], sets["listssame6"]], max(200, N[ctx.tier] // 20))):
         q = dict(**{"from": sets["fromssame6"][f]}, where=[], list=sets["listssame6"][l], group=[], order=[], limit=-1, offset=-1, style=n % 8)
         cases.append(dict(db=dbs[d], q=q, _t=d))
+    # an ambiguous name behind an operand that decides ON for every pair (l.id = r.y never holds, l.id < r.y always does:
+    # r.y is 11..43). Without any pair to evaluate ON on (an empty side) the engine has nothing to resolve: not generated.
+    for n, (d, f) in enumerate(semlib.cover_product(rng, [dbs, sets["fromsambon6"]], max(300, N[ctx.tier] // 15))):
+        if not dbs[d]["l"]["rows"] or not dbs[d]["r"]["rows"]:
+            continue
+        star = next(x for x in sets["lists6"] if x[0]["k"] == "star")
+        q = dict(**{"from": sets["fromsambon6"][f]}, where=[], list=star, group=[], order=[], limit=-1, offset=-1, style=n % 8)
+        cases.append(dict(db=dbs[d], q=q, _t=d))
     pool = vlib.WorkerPool(ctx, binary)
     try:
         semlib.execute(ctx, pool, cases, lambda c: c["_t"])
